@@ -269,7 +269,7 @@ fn random_inv(rng: &mut Rng, p: &Project, faults_ok: bool) -> Inv {
 }
 
 /// Apply one random edit; returns its description or None if nothing applicable.
-fn random_edit(prop: &str, rng: &mut Rng, world: &mut World) -> Option<J> {
+pub fn random_edit(prop: &str, rng: &mut Rng, world: &mut World) -> Option<J> {
     let srcs = world.proj.sources.clone();
     let real_steps: Vec<usize> = (0..world.proj.steps.len())
         .filter(|&i| !world.proj.steps[i].phony && world.proj.steps[i].effect != Effect::Generator)
@@ -794,7 +794,7 @@ fn history_case(ctx: &Ctx, dir: &std::path::Path, case: u64, seed: u64, rep: &mu
 }
 
 /// C17: make the manifest a generated file and produce 1-3 future generations.
-fn make_generations(proj: &mut Project, rng: &mut Rng) -> Vec<Project> {
+pub fn make_generations(proj: &mut Project, rng: &mut Rng) -> Vec<Project> {
     proj.sources.push("gen.in".into());
     let mut ins = vec!["gen.in".to_string()];
     if rng.chance(1, 3) {
@@ -893,6 +893,8 @@ fn make_generations(proj: &mut Project, rng: &mut Rng) -> Vec<Project> {
                     let src = rng.pick(&next.sources).clone();
                     if !next.steps[i].all_ins().any(|x| *x == src) && !src.ends_with(".h") {
                         next.steps[i].imps.push(src);
+                        // the command text identifies what a step does (the black-box agent looks it up by it)
+                        next.steps[i].ver += 1;
                     }
                 }
                 _ => {}
